@@ -787,7 +787,7 @@ def observe_history(case: dict, index: int, repaired: bool) -> dict:
     """Drive the real aggregator handlers (`handle_RegisterEngineMsg`, `handle_EngineDisconnected`, `handle_UodInfoMsg`)
     and the real `lint` (whose `fetch_uod_info` reads that aggregator) through the history, the way production changes
     lint's inputs.  Nothing is patched: the aggregator is installed where `deps.get_aggregator()` finds it."""
-    import openpectus.aggregator.deps as agg_deps
+    from harness import agg_install
     import openpectus.protocol.engine_messages as EM
     import openpectus.protocol.models as ProMdl
     from harness.agg_common import run as agg_run
@@ -796,8 +796,7 @@ def observe_history(case: dict, index: int, repaired: bool) -> dict:
     h = aggregator_harness()
     engine = index + 1
     engine_id, uri = h.eid(engine), f"file://workspace/history-{index}"
-    saved_server = agg_deps._server
-    agg_deps._server = h.agg
+    installed = agg_install.install(h.agg)
     workspaces: dict[int, Workspace] = {}
     docs: dict[int, Document] = {}
     ops: list[str] = ["sess-mode\t" + ("repaired" if repaired else "asis")]
@@ -869,7 +868,7 @@ def observe_history(case: dict, index: int, repaired: bool) -> dict:
                 h.disconnect(engine)
         except Exception:  # noqa: BLE001
             pass
-        agg_deps._server = saved_server
+        agg_install.restore(installed)
         lsp_analysis.create_analysis_input.cache_clear()
     return {"ops": ops, "outs": outs, "lints": lints, "refused": refused}
 
